@@ -168,7 +168,7 @@ func init() {
 	srvDiffs := []string{"msg.", "elec", "master", "sess", "ents", "pend", "add.", "del."}
 	props["C04"] = &PropSpec{Mode: "srv.election", Diffs: srvDiffs, Monitors: []string{"c04"}}
 	props["C05"] = &PropSpec{Mode: "srv.election", Extra: []string{"conc"}, Diffs: []string{"msg.resps", "elec", "master", "msg.not-accepted", "conc"}, Monitors: []string{"c05"}}
-	props["C06"] = &PropSpec{Mode: "srv.answers", Diffs: []string{"msg.", "pend"}, Monitors: []string{"c06"}}
+	props["C06"] = &PropSpec{Mode: "srv.answers", Extra: []string{"eofdrain"}, Diffs: []string{"msg.", "pend"}, Monitors: []string{"c06"}}
 	props["C09"] = &PropSpec{Mode: "srv.protocol", Diffs: []string{"msg.", "sess", "elec", "master"}, Monitors: []string{"c09"}}
 	props["C12"] = &PropSpec{Mode: "srv.malformed", Diffs: []string{"msg.", "ents", "pend", "refs", "crash", "add.", "del."}, Monitors: []string{"c12"}}
 	props["C08"] = &PropSpec{Mode: "srv.flushget", Diffs: []string{"flush", "ents", "refs", "hooks"}, Monitors: []string{"c08", "c03"}}
